@@ -88,14 +88,14 @@ pub const MAXC: usize = 6;
 pub struct Kids {
     pub ids: [usize; 5],
     pub codes: [u8; MAXC], pub flows: [u8; MAXC], pub errs: [bool; MAXC],
-    pub seq: [u8; MAXC], pub flags: [bool; MAXC], pub n: usize,
+    pub seq: [u8; MAXC], pub flags: [bool; MAXC], pub st_in: [u8; MAXC], pub n: usize,
     pub pat: [bool; 4], pub pats: usize, pub traces: u8, pub displayed: u8, pub asyncs: u8,
     pub words: u8, pub loop_var_sets: u8, pub arith: [i64; 6], pub arith_seq: [u8; 6], pub ariths: usize, pub clones: u8,
     pub in_subshell_calls: u8,
 }
 impl Kids {
     pub fn new(ids: [usize; 5]) -> Self {
-        let k = Kids { ids, codes: [kani::any(), kani::any(), kani::any(), kani::any(), kani::any(), kani::any()], flows: [kani::any(), kani::any(), kani::any(), kani::any(), kani::any(), kani::any()], errs: [false; MAXC], seq: [9; MAXC], flags: [false; MAXC], n: 0,
+        let k = Kids { ids, codes: [kani::any(), kani::any(), kani::any(), kani::any(), kani::any(), kani::any()], flows: [kani::any(), kani::any(), kani::any(), kani::any(), kani::any(), kani::any()], errs: [false; MAXC], seq: [9; MAXC], flags: [false; MAXC], st_in: [0; MAXC], n: 0,
                        pat: [kani::any(), kani::any(), kani::any(), kani::any()], pats: 0, traces: 0, displayed: 0, asyncs: 0, words: 0, loop_var_sets: 0,
                        arith: [kani::any(), kani::any(), kani::any(), kani::any(), kani::any(), kani::any()], arith_seq: [9; 6], ariths: 0, clones: 0, in_subshell_calls: 0 };
         kani::assume(k.flows[0] < 7 && k.flows[1] < 7 && k.flows[2] < 7 && k.flows[3] < 7 && k.flows[4] < 7 && k.flows[5] < 7);
@@ -110,6 +110,7 @@ impl Kids {
         self.n += 1;
         self.seq[k] = self.idx(id);
         self.flags[k] = p.suppress_errexit;
+        self.st_in[k] = shell.last_exit_status();
         if self.errs[k] { return Err(error::ErrorKind::NotArray.into()); }
         shell.set_last_exit_status(self.codes[k]);
         let mut r = ExecutionResult::new(self.codes[k]);
@@ -277,6 +278,31 @@ fn vk_c02_compound_list_3() {
     assert!(shell.last_exit_status() == o.codes[k], "C02.list.dollar_question");
     assert!(o.flags[0] == parent_flag && (o.n < 2 || o.flags[1] == parent_flag) && (o.n < 3 || o.flags[2] == parent_flag), "C03.list.items_inherit_flag");
     assert!(o.asyncs == 0, "C02.list.no_background");
+    std::mem::forget(l); std::mem::forget(shell); std::mem::forget(params);
+}
+
+//@proof {'props': ['C02'], 'tier': 'quick', 'timeout': 900, 'bounds': 'a ; b & c : three items, the middle one in the background; child results arbitrary', 'desc': 'a; b & c: b is handed to the background launcher exactly once and not executed inline; the list goes on with c whatever b would return; $? seen by c is 0 (bash: the status of an asynchronous list is 0); the result is that of c', 'uses': ['clist']}
+#[kani::proof]
+#[kani::unwind(5)]
+#[kani::stub(std::hash::RandomState::new, crate::vk_prelude::stub_random_state_new)]
+#[kani::stub(std::time::SystemTime::now, crate::vk_prelude::stub_now)]
+fn vk_c02_compound_list_async() {
+    let (mut shell, params) = mk_shell(kani::any());
+    let mut items = Vec::with_capacity(3);
+    let seps = [ast::SeparatorOperator::Sequence, ast::SeparatorOperator::Async, ast::SeparatorOperator::Sequence];
+    for i in 0..3 { items.push(ast::CompoundListItem(ast::AndOrList { first: pipe(), additional: Vec::new() }, seps[i].clone())); }
+    let l = ast::CompoundList(items);
+    let mut o = Kids::new([l.0[0].0.vk_id(), l.0[1].0.vk_id(), l.0[2].0.vk_id(), 3, 4]);
+    let r = vk_ok(t_clist(&l, &mut shell, &params, &mut o));
+    kani::cover!(o.flows[0] == 0 && o.codes[0] == 7, "first_item_fails_with_7_then_background_item");
+    if o.flows[0] != 0 {
+        assert!(o.n == 1 && o.asyncs == 0, "C02.list.stops_at_first_non_normal_flow");
+    } else {
+        assert!(o.asyncs == 1, "C17.list.background_item_launched_once");
+        assert!(o.n == 2 && o.seq[0] == 0 && o.seq[1] == 2, "C02.list.background_item_not_run_inline_and_list_continues");
+        assert!(o.st_in[1] == 0, "C02.list.dollar_question_after_background_item_is_zero");
+        assert!(st(&r) == o.codes[1] && flow_tag(&r.next_control_flow) == o.flows[1], "C02.list.result_is_last_run");
+    }
     std::mem::forget(l); std::mem::forget(shell); std::mem::forget(params);
 }
 
